@@ -28,6 +28,10 @@ THEOREMS = ['PV.C11s.' + t for t in [
   'fuel_sufficient', 'postorder_perm', 'groups_partition', 'vscc_is_group', 'groups_strongly_connected', 'same_group_iff_mutual',
   'gnew_is_condensation', 'condensation_acyclic', 'creation_order', 'scc_schedule_topological', 'scc_schedule_is_kahn_run', 'singleton_not_on_cycle',
   'expanded_schedule_order', 'entries_topological', 'check_sound']]
+RULE = ('SCC: random digraphs of eight shapes (sparse/dense random, DAG, one big cycle with chords, chain of cycles, nested cycles sharing vertices, '
+        'disconnected parts, tiny exhaustive-like, self loops sprinkled), 1-40 vertices, random labels, dict order and edge order; a graph is non-trivial '
+        'if it has a group of >= 2 vertices or >= 2 groups; plus generated designs (block graph = random digraph / the C11 cyclic kinds / acyclic rtlgen designs) '
+        'under DynamicSchedulePass, Mamba2020Pass and OpenLoopCLPass; a case = graph or (design, pass)')
 TRUSTED = [
   'Model/Scc.lean: kosaraju_scc (iterative DFS with (u, second_visit) stack entries, BFS over G_T in reverse post-order, G_new) and the '
   'InD/worklist sort of schedule_intra_cycle, written from DynamicSchedulePass.py; tied to the real code by exact comparison of SCCs '
